@@ -488,10 +488,15 @@ func gen() {
 	// node-id lease: lifetime of the slot marker (exported constant) and heartbeat period (literal of time.NewTicker in
 	// heartbeatLoop, read from the syntax tree of the working tree's node_id_allocator.go)
 	fmt.Printf("Definition NodeLockTTLSeconds : nat := %d.\n", int(node.NodeIDLockTTL/time.Second))
-	period := 0
+	// source tree: argument, else $VERIF_REPO, else /repo (the harness binary is built from that tree; ./check setup calls gen without arguments)
+	root := os.Getenv("VERIF_REPO")
 	if len(os.Args) > 2 {
-		period = heartbeatPeriodSeconds(filepath.Join(os.Args[2], "internal", "core", "node", "node_id_allocator.go"))
+		root = os.Args[2]
 	}
+	if root == "" {
+		root = "/repo"
+	}
+	period := heartbeatPeriodSeconds(filepath.Join(root, "internal", "core", "node", "node_id_allocator.go"))
 	fmt.Printf("Definition NodeHeartbeatSeconds : nat := %d.\n", period)
 }
 
